@@ -443,6 +443,9 @@ def r4_before_pruning(ctx, chk, rule="C04.4"):
 
 
 def run(ctx, chk):
+    # observed through the batch driver: run_games()[name]['reachability_strategies'] must be this game's, this mode's value
+    from . import C12 as _C12
+    _C12.observe(ctx, chk, "C04.obs", ['reachability_strategies'])
     from . import C01
     r1_argsets(ctx, chk)
     r2_precision(ctx, chk)
